@@ -225,3 +225,16 @@ func Tampered(o *world.Obs) bool {
 	}
 	return false
 }
+
+// UnclosedBodies lists origin replies whose body nobody closed by the end of the scenario. The
+// client of the harness closes every body it is handed, so what is left was dropped by the
+// cache (with a real http.Transport underneath each one pins a connection).
+func UnclosedBodies(o *world.Obs) []*world.Call {
+	var out []*world.Call
+	for _, c := range o.Calls {
+		if c.Completed && c.Kind == "resp" && c.BodyTracked && !c.BodyClosed.Load() {
+			out = append(out, c)
+		}
+	}
+	return out
+}
